@@ -167,4 +167,4 @@ def run(tier="quick", seed=0, only_prefix="C02:", subsample=1):
 
 def _run(cs, tier):
     return common.run("bounded.C02", cs, bound="<=3 candidates x <=3 ballots (quick) / <=5 x 6 (thorough)", rule=RULE,
-                      budget_s=150 if tier == "quick" else 1500)
+                      budget_s=600 if tier == "quick" else 1500)
